@@ -279,6 +279,19 @@ func (x *Exec) vcIntrinsic(fr *Frame, name string, args []Value, pos token.Pos) 
 		return Scalar{Or(x.getFlag(faultFlag), x.getFlag(buildFaultFlag))}
 	case "GhostLen":
 		name := x.constStr(args[0])
+		if cm != nil && !cm.prove && cm.done && len(x.st.ghost[name]) == 0 {
+			// The contract is being USED: the log belongs to the callee's own abstraction (its
+			// harness starts it empty), the caller keeps no such log.  What the postconditions say about
+			// it is about unknown values here — not "length 0", which would turn `GhostLen == 1` into
+			// `false` and the guarded postconditions into contradictory assumptions.
+			if cm.ghostLen == nil {
+				cm.ghostLen = map[string]*Term{}
+			}
+			if cm.ghostLen[name] == nil {
+				cm.ghostLen[name] = Fresh("ghostlen!"+name, BV(64))
+			}
+			return Scalar{cm.ghostLen[name]}
+		}
 		if l := x.st.ghost[name]; len(l) == 1 {
 			if _, ok := l[0].(UnknownV); ok {
 				x.notes["ghost-log-merged:"+name] = true
@@ -294,6 +307,20 @@ func (x *Exec) vcIntrinsic(fr *Frame, name string, args []Value, pos token.Pos) 
 			unsup("vc.GhostBytes with symbolic index")
 		}
 		i := int(idx.Val.Int64())
+		if cm != nil && !cm.prove && cm.done && len(log) == 0 {
+			if cm.ghostBytes == nil {
+				cm.ghostBytes = map[string]SliceV{}
+			}
+			k := fmt.Sprintf("%s#%d", name, i)
+			if v, ok := cm.ghostBytes[k]; ok {
+				return v
+			}
+			n := len(x.inputs)
+			v := x.freshSymSlice("ghostbytes!"+k, 8, types.Typ[types.Uint8])
+			x.inputs = x.inputs[:n]
+			cm.ghostBytes[k] = v
+			return v
+		}
 		if i < 0 {
 			i += len(log)
 		}
